@@ -805,6 +805,40 @@ func vendorRegistration(c *core.Ctx, r *core.Rand, i int) {
 	}
 }
 
+// localZoneCase (fresh process): the process does not run in UTC. Dates anywhere in years 1..9999 - the first and
+// last hours included - must travel through XML and JSON as they do through binary TTLV.
+func localZoneCase(c *core.Ctx, r *core.Rand, i int) {
+	offs := []int{-11 * 3600, 13 * 3600, -8 * 3600, 5*3600 + 1800, -3600, 3600}
+	time.Local = time.FixedZone("verif-local", offs[i%len(offs)])
+	instants := []int64{-62135596800, -62135596800 + 3600, -62135596800 + 12*3600, -62135596800 + 86399, 253402300799, 253402300799 - 3600, 253402300799 - 13*3600, 0, -1, 1700000000}
+	for k := 0; k < 40; k++ {
+		instants = append(instants, -62135596800+int64(r.Intn(2*86400)), 253402300799-int64(r.Intn(2*86400)), int64(r.Intn(1<<32)))
+	}
+	for _, sec := range instants {
+		for _, mk := range []func(int64) time.Time{
+			func(s int64) time.Time { return time.Unix(s, 0) },       // local location
+			func(s int64) time.Time { return time.Unix(s, 0).UTC() }, // UTC location
+		} {
+			tm := mk(sec)
+			c.Count("local_zone_dates", 1)
+			label := fmt.Sprintf("Date-Time %d (%s) in a process whose local zone is UTC%+d s", sec, tm.UTC().Format(time.RFC3339), offs[i%len(offs)])
+			exp := wire.Node{Tag: kmip.TagActivationDate, Type: wire.DateTime, Int: sec}
+			for _, f := range formats {
+				checkDoc(c, f, ttlv.Value{Tag: kmip.TagActivationDate, Value: tm}, exp, func() any { return &ttlv.Value{} }, label, false)
+			}
+			// the zero time.Time is what an unset time stamp is
+			m := &kmip.ResponseMessage{Header: kmip.ResponseHeader{ProtocolVersion: kmip.V1_4, TimeStamp: tm, BatchCount: 1},
+				BatchItem: []kmip.ResponseBatchItem{{Operation: kmip.OperationActivate, ResultStatus: kmip.ResultStatusSuccess, ResponsePayload: &payloads.ActivateResponsePayload{UniqueIdentifier: "x"}}}}
+			if mexp, err := refmodel.Tree(m, 4); err == nil {
+				for _, f := range formats {
+					checkDoc(c, f, m, mexp, func() any { return &kmip.ResponseMessage{} }, label+" as response time stamp", false)
+				}
+			}
+		}
+	}
+	c.Distinct(core.Hash64("local-zone", fmt.Sprint(i)))
+}
+
 var attrOrderRe = regexp.MustCompile(`<([A-Za-z_0-9]+)((?: tag="[^"]*")?) type="([A-Za-z]+)" value="([^"']*)"/>`)
 
 func nOf(q, t int) func(string) int {
@@ -825,10 +859,10 @@ func Spec() *core.Spec {
 			"judged by encoding/xml + encoding/json (all) and expat + Python json (10% quick / all thorough), interpreted by the harness's own readers and compared with the reference layout, decoded and re-encoded to binary; " +
 			"ladders over long/big integers around ±2^52, every enumeration value named/unnamed, mask classes (0, single, all, unnamed bits, bit 31), text classes, date edges. " +
 			"B: every request/response message of the 419 shipped OASIS vector files whose operations are implemented, pushed through UnmarshalXML/MarshalXML and compared semantically with the harness's reading of the vector; " +
-			"value variations and corpus-derived optional-element removals. plus vectors with XML attributes in another order, 8 goroutines producing documents with unnamed enumeration values at once, and (fresh process) standard names read after vendor values were registered for four enumerations. distinct = distinct layout shapes / documents",
+			"value variations and corpus-derived optional-element removals. plus six fresh processes whose local time zone is not UTC (dates in the first and last hours of years 1..9999), vectors with XML attributes in another order, 8 goroutines producing documents with unnamed enumeration values at once, and (fresh process) standard names read after vendor values were registered for four enumerations. distinct = distinct layout shapes / documents",
 		Assumptions: []string{"TZ=UTC", "harness/xtree is an independent reading of KMIP 1.4 Profiles §5.4/§5.5 by the same author", "placeholders ($NOW, $UNIQUE_IDENTIFIER_n, …) are substituted before both sides see the vector",
 			"an element is optional in a context if the corpus contains an instance of that context without it; rejections of such removals are counted, not judged"},
-		Required: []string{"docs.xml", "docs.json", "py_judged.xml", "py_judged.json", "vectors_supported", "variations.value", "variations.optional-element", "variations.attribute-order", "concurrent_documents", "vendor_registration_docs", "ladder.enum-named", "ladder.mask-bit31", "ladder.text-json-control", "ladder.long-near-2^52"},
+		Required: []string{"docs.xml", "docs.json", "py_judged.xml", "py_judged.json", "vectors_supported", "variations.value", "variations.optional-element", "variations.attribute-order", "concurrent_documents", "vendor_registration_docs", "local_zone_dates", "ladder.enum-named", "ladder.mask-bit31", "ladder.text-json-control", "ladder.long-near-2^52"},
 		// a data race inside the codec while documents are being produced means one document may carry another one's
 		// content: a violation when both stacks end in package ttlv (other reports print as diagnostics)
 		RaceVerdict: func(r core.RaceReport) (string, bool) {
@@ -852,6 +886,7 @@ func Spec() *core.Spec {
 			{Name: "oasis-variations", N: nOf(6000, 200000), Run: variationCase},
 			// processes of their own, built with the race detector (see RaceVerdict)
 			{Name: "concurrent", Isolated: true, Race: true, N: nOf(2, 60), Run: concurrentDocs, Timeout: 120 * time.Second},
+			{Name: "local-zone", Isolated: true, Exhaustive: true, N: func(string) int { return 6 }, Run: localZoneCase, Timeout: 120 * time.Second},
 			{Name: "vendor-registration", Isolated: true, N: nOf(1, 8), Run: vendorRegistration, Timeout: 120 * time.Second},
 			{Name: "py-flush", N: func(string) int { return 16 }, Run: func(c *core.Ctx, r *core.Rand, i int) { pyFlush(c) }},
 		},
